@@ -48,7 +48,7 @@ func (s *scLife) Configure(w *World) {
 		// filtered collection: the tail of a snapshot may be closed by seqno-advanced
 		c.ScopeName, c.CollectionNames, c.Collections = "s1", []string{"c1"}, []uint32{8, 8, 9}
 	}
-	c.ConsumerMode = Pick(t, []string{"deferred", "immediate", "immediate-commit"}, []int{7, 2, 1})
+	c.ConsumerMode = Pick(t, []string{"deferred", "immediate", "immediate-commit", "deferred-commit"}, []int{7, 2, 1, 1})
 	c.CkptType = Pick(t, []string{"auto", "manual"}, []int{4, 1})
 	c.CkptInterval = time.Duration(301+100*t.Draw(10, nil)) * time.Millisecond
 	c.CkptTimeout = Pick(t, []time.Duration{3001 * time.Millisecond, 1501 * time.Millisecond}, nil)
@@ -77,7 +77,7 @@ func (s *scLife) Configure(w *World) {
 			}
 		}
 		c.W.Commit = 3
-		if c.ConsumerMode != "deferred" && t.Draw(2, nil) == 0 {
+		if !strings.HasPrefix(c.ConsumerMode, "deferred") && t.Draw(2, nil) == 0 {
 			c.YieldSites = map[string]bool{"consumer.trackoffset": true}
 		}
 	case "C01":
@@ -297,7 +297,7 @@ func (s *scLife) MemberActions(w *World, m *Member) []Action {
 		acts = append(acts, Action{ID: "scrape|" + id, W: c.W.Scrape, Do: func() { m.scrape() }})
 	}
 	acts = append(acts, Action{ID: "api-offset|" + id, W: c.W.API, Do: func() { m.apiCall("GET", "/states/offset", "") }})
-	if s.prop == "C04" && m.mode == "deferred" {
+	if s.prop == "C04" && strings.HasPrefix(m.mode, "deferred") {
 		// acknowledgements racing on different vBuckets
 		w.mu.Lock()
 		var vbs []int
